@@ -199,9 +199,46 @@ func randBlob(r *RNG) []byte {
 	return append([]byte("EXIF\x02\x00\x00\x00xx"), r.Bytes(r.Intn(9))...)
 }
 
+// randEncoderOptions draws from the full option grid (presets, lossy and lossless, Quality incl. > 75,
+// Method 0..6, Exact, and for lossy: segments, partitions, passes, filter, SNS, alpha settings, sharp
+// YUV, preprocessing, target size / PSNR, QMin/QMax); no metadata.
+func randEncoderOptions(r *RNG) *webp.EncoderOptions {
+	o := webp.DefaultOptions()
+	if r.Chance(1, 4) {
+		o = webp.OptionsForPreset(webp.Preset(r.Intn(6)), 75)
+	}
+	o.Lossless = r.Chance(2, 5)
+	o.Quality = float32([]int{0, 10, 50, 75, 90, 100}[r.Intn(6)])
+	o.Method = r.Intn(7)
+	o.Exact = r.Bool()
+	if !o.Lossless {
+		o.Segments = 1 + r.Intn(4)
+		o.Partitions = r.Intn(4)
+		o.Pass = []int{1, 2, 10}[r.Intn(3)]
+		o.FilterStrength = []int{0, 30, 100, -1}[r.Intn(4)]
+		o.FilterSharpness = r.Intn(8)
+		o.FilterType = r.Intn(2)
+		o.SNSStrength = []int{0, 50, 100}[r.Intn(3)]
+		o.AlphaCompression = r.Intn(2)
+		o.AlphaFiltering = r.Intn(3)
+		o.AlphaQuality = []int{0, 50, 100, -1}[r.Intn(4)]
+		o.UseSharpYUV = r.Chance(1, 6)
+		o.Preprocessing = r.Intn(4)
+		if r.Chance(1, 8) {
+			o.TargetSize = 100 + r.Intn(4000)
+		} else if r.Chance(1, 10) {
+			o.TargetPSNR = float32(25 + r.Intn(20))
+		}
+		if r.Chance(1, 6) {
+			o.QMin, o.QMax = r.Intn(40), 40+r.Intn(61)
+		}
+	}
+	return o
+}
+
 // suiteConform: C02 — every successful Encode emits a conformant, self-describing file.
 func suiteConform(rep *Report) error {
-	rep.Rule = "Encode over image class x alpha class x size x {lossy,lossless} x Quality x Method x presets x Segments x Partitions x Pass x filter settings x SNS x QMin/QMax x TargetSize/TargetPSNR x sharp YUV x dithering x Exact x alpha settings x metadata subsets; each output: independent structural walk (sizes, padding, chunk order, VP8X flags <=> chunks, canvas = image size, alpha flag vs source), Lean RIFF walker (when the driver has riffwf), accepted by webp.Decode with the source's size, and decoded by the independent Lean decoders (VP8L always; VP8 when the driver has vp8) to the same pixels/samples as the Go decoder; non-trivial = image not flat"
+	rep.Rule = "Encode over image class x alpha class (incl. sparse: 1..3 non-opaque pixels at raster index 0, 1 or among the last 8) x size x {lossy,lossless} x Quality x Method x presets x Segments x Partitions x Pass x filter settings x SNS x QMin/QMax x TargetSize/TargetPSNR x sharp YUV x dithering x Exact x alpha settings x metadata subsets, plus two deterministic legs: one non-opaque pixel at index 0 / 1 / each of the last 8 positions over sizes with pixel count mod 4 = 0..3, and two-colour pictures whose packed bytes leave runs of unused symbols of lengths around 2/3, 10/11, 138/139/140 and 130..145 in the code-length vector; each output: independent structural walk (sizes, padding, chunk order, VP8X flags <=> chunks, canvas = image size, alpha flag vs source), Lean RIFF walker (when the driver has riffwf), accepted by webp.Decode with the source's size, and decoded by the independent Lean decoders (VP8L always; VP8 when the driver has vp8) to the same pixels/samples as the Go decoder; non-trivial = image not flat"
 	n := 330
 	if rep.Tier == "thorough" {
 		n = 8000
@@ -217,50 +254,74 @@ func suiteConform(rep *Report) error {
 	var pends []pend
 	hasVP8 := driverHas("vp8")
 	hasWF := driverHas("riffwf")
-	for i := 0; i < n; i++ {
+	// extra deterministic legs after the n random cases:
+	//   sparse: one non-opaque pixel at raster index 0, 1 and at each of the last 8 positions, over sizes
+	//           with pixel count mod 4 = 0..3 (lossless 3 of 4: the alpha flag of the file must follow);
+	//   zero-runs: two-colour pictures whose packed bytes leave runs of unused symbols of controlled
+	//           lengths in the code-length vector (2/3, 10/11, 138/139/140, 130..145)
+	sparsePos := []int{0, 1, -1, -2, -3, -4, -5, -6, -7, -8}
+	nSparse := len(SparseAlphaSizes) * len(sparsePos)
+	nZero := 90
+	if rep.Tier == "thorough" {
+		nZero = 2500
+	}
+	for i := 0; i < n+nSparse+nZero; i++ {
 		r := NewRNG(rep.Seed, uint64(i))
 		sz := sizes[r.Intn(len(sizes))]
 		if i%83 == 0 {
 			sz = [2]int{320, 320}
 		}
 		cls, acls := r.Intn(NumImgClasses), r.Intn(NumAlphaClasses)
-		img := GenImage(r, sz[0], sz[1], cls, acls)
-		o := webp.DefaultOptions()
-		if r.Chance(1, 4) {
-			o = webp.OptionsForPreset(webp.Preset(r.Intn(6)), 75)
-		}
-		o.Lossless = r.Chance(2, 5)
-		o.Quality = float32([]int{0, 10, 50, 75, 90, 100}[r.Intn(6)])
-		o.Method = r.Intn(7)
-		o.Exact = r.Bool()
-		if !o.Lossless {
-			o.Segments = 1 + r.Intn(4)
-			o.Partitions = r.Intn(4)
-			o.Pass = []int{1, 2, 10}[r.Intn(3)]
-			o.FilterStrength = []int{0, 30, 100, -1}[r.Intn(4)]
-			o.FilterSharpness = r.Intn(8)
-			o.FilterType = r.Intn(2)
-			o.SNSStrength = []int{0, 50, 100}[r.Intn(3)]
-			o.AlphaCompression = r.Intn(2)
-			o.AlphaFiltering = r.Intn(3)
-			o.AlphaQuality = []int{0, 50, 100, -1}[r.Intn(4)]
-			o.UseSharpYUV = r.Chance(1, 6)
-			o.Preprocessing = r.Intn(4)
-			if r.Chance(1, 8) {
-				o.TargetSize = 100 + r.Intn(4000)
-			} else if r.Chance(1, 10) {
-				o.TargetPSNR = float32(25 + r.Intn(20))
+		var img *image.NRGBA
+		idesc := ""
+		leg := "random"
+		switch {
+		case i < n:
+			img = GenImage(r, sz[0], sz[1], cls, acls)
+			idesc = imgDesc(sz[0], sz[1], cls, acls)
+		case i < n+nSparse:
+			k := i - n
+			sz = SparseAlphaSizes[k/len(sparsePos)]
+			pos := sparsePos[k%len(sparsePos)]
+			var ok bool
+			img, ok = GenImageSparseAt(r, sz[0], sz[1], cls, []int{pos}, []byte{0, 100, 254, 1}[k%4])
+			if !ok {
+				continue
 			}
-			if r.Chance(1, 6) {
-				o.QMin, o.QMax = r.Intn(40), 40+r.Intn(61)
+			acls = AlphaSparse
+			idesc = fmt.Sprintf("%dx%d/%s/sparse@%d", sz[0], sz[1], imgClassNames[cls], pos)
+			leg = "sparse"
+		default:
+			var what string
+			img, sz[0], sz[1], what = GenZeroRunImage(r, r.Chance(1, 3))
+			acls = AlphaNone
+			if srcHasAlpha(img) {
+				acls = AlphaBinary
 			}
+			idesc = fmt.Sprintf("%dx%d/%s", sz[0], sz[1], what)
+			leg = "zero-runs"
 		}
+		o := randEncoderOptions(r)
 		o.ICC, o.EXIF, o.XMP = randBlob(r), randBlob(r), randBlob(r)
 		if r.Chance(1, 3) {
 			o.ICC, o.EXIF, o.XMP = nil, nil, nil
 		}
+		switch leg {
+		case "sparse":
+			if i%4 != 3 {
+				o.Lossless = true
+			}
+		case "zero-runs":
+			if i%3 != 2 {
+				o.Lossless = true
+			} else if !o.Lossless && acls != AlphaNone {
+				// the 0/255 alpha plane carries the bit pattern: lossless-compressed, unfiltered ALPH
+				o.AlphaCompression, o.AlphaFiltering = 1, 0
+			}
+		}
+		rep.Count("leg:" + leg)
 		desc := fmt.Sprintf("%s lossless=%v q=%v m=%d exact=%v seg=%d part=%d pass=%d fs=%d ts=%d psnr=%v ac=%d af=%d aq=%d syuv=%v pre=%d meta=%d/%d/%d",
-			imgDesc(sz[0], sz[1], cls, acls), o.Lossless, o.Quality, o.Method, o.Exact, o.Segments, o.Partitions, o.Pass, o.FilterStrength, o.TargetSize, o.TargetPSNR, o.AlphaCompression, o.AlphaFiltering, o.AlphaQuality, o.UseSharpYUV, o.Preprocessing, len(o.ICC), len(o.EXIF), len(o.XMP))
+			idesc, o.Lossless, o.Quality, o.Method, o.Exact, o.Segments, o.Partitions, o.Pass, o.FilterStrength, o.TargetSize, o.TargetPSNR, o.AlphaCompression, o.AlphaFiltering, o.AlphaQuality, o.UseSharpYUV, o.Preprocessing, len(o.ICC), len(o.EXIF), len(o.XMP))
 		file, err := encodeBytes(img, o)
 		if err != nil {
 			// Encode may refuse, but then nothing about the file is claimed; count it
@@ -356,6 +417,142 @@ func suiteConform(rep *Report) error {
 	return nil
 }
 
+// metaAnimCase: one animation-encoder run with a random metadata setter sequence (see suiteMeta).
+func metaAnimCase(rep *Report, r *RNG, i int, img *image.NRGBA, w, h, cls, acls int) {
+	var buf bytes.Buffer
+	lossless := r.Chance(2, 3)
+	e := animation.NewEncoder(&buf, w, h, &animation.EncodeOptions{Lossless: lossless, Quality: []int{50, 75, 90}[r.Intn(3)]})
+	nframes := 1 + r.Intn(3)
+	if r.Chance(1, 3) {
+		nframes = 1
+	}
+	names := []string{"ICC", "EXIF", "XMP"}
+	var final [3][]byte
+	var trace []string
+	call := func() {
+		k := r.Intn(3)
+		var b []byte
+		switch r.Intn(5) {
+		case 0, 1:
+			b = nil
+		case 2:
+			b = []byte{}
+		default:
+			for b == nil {
+				b = randBlob(r)
+			}
+		}
+		switch k {
+		case 0:
+			e.SetICCProfile(b)
+		case 1:
+			e.SetEXIF(b)
+		default:
+			e.SetXMP(b)
+		}
+		final[k] = b
+		if b == nil {
+			trace = append(trace, names[k]+"(nil)")
+		} else {
+			trace = append(trace, fmt.Sprintf("%s(%d)", names[k], len(b)))
+		}
+	}
+	ncalls := r.Intn(7)
+	// slot s: calls made before frame s (s = nframes: after the last frame, before Close)
+	slots := make([]int, nframes+1)
+	for c := 0; c < ncalls; c++ {
+		slots[r.Intn(nframes+1)]++
+	}
+	frame := img
+	for f := 0; f <= nframes; f++ {
+		for c := 0; c < slots[f]; c++ {
+			call()
+		}
+		if f == nframes {
+			break
+		}
+		if f > 0 {
+			frame = GenImage(r, w, h, cls, acls)
+		}
+		if err := e.AddFrame(frame, time.Duration(30+10*f)*time.Millisecond); err != nil {
+			rep.Count("animation:addframe-error")
+			return
+		}
+		trace = append(trace, "frame")
+	}
+	desc := fmt.Sprintf("%s lossless=%v frames=%d calls=%s", imgDesc(w, h, cls, acls), lossless, nframes, strings.Join(trace, ","))
+	add := func(sig, detail string) {
+		rep.Add(Finding{Kind: "property", Property: "C15", Signature: sig, Detail: desc + ": " + detail,
+			Input: map[string]any{"op": "meta", "case": i, "seed": rep.Seed, "desc": desc, "hex": short(hx(buf.Bytes()), 6000)}})
+	}
+	if err := e.Close(); err != nil {
+		add("meta:anim-close-error", err.Error())
+		return
+	}
+	file := buf.Bytes()
+	held := 0
+	for _, b := range final {
+		if b != nil {
+			held++
+		}
+	}
+	rep.Eval(held > 0, append([]byte(desc), file...))
+	rep.Count(fmt.Sprintf("animation:frames=%d", nframes))
+	rep.Count(fmt.Sprintf("animation:kinds-held=%d", held))
+	if len(file) >= 16 && string(file[12:16]) != "VP8X" {
+		rep.Count("animation:written-as-simple-still")
+	}
+	for k := range final {
+		sawNonNil := false
+		for _, t := range trace {
+			if strings.HasPrefix(t, names[k]+"(") && t != names[k]+"(nil)" {
+				sawNonNil = true
+			} else if t == names[k]+"(nil)" && sawNonNil {
+				rep.Count("animation:nil-after-blob")
+				sawNonNil = false
+			}
+		}
+	}
+	a, aerr := animation.DecodeBytes(file)
+	if aerr != nil {
+		add("meta:anim-unreadable", aerr.Error())
+		return
+	}
+	dm, derr := mux.NewDemuxer(file)
+	if derr != nil {
+		add("meta:anim-demux-error", derr.Error())
+		return
+	}
+	ft := dm.GetFeatures()
+	for k, m := range []struct {
+		id   mux.ChunkID
+		got  []byte
+		flag bool
+	}{{mux.FourCCICCP, a.ICC, ft.HasICC}, {mux.FourCCEXIF, a.EXIF, ft.HasEXIF}, {mux.FourCCXMP, a.XMP, ft.HasXMP}} {
+		want := final[k]
+		chunk, gerr := dm.GetChunk(m.id)
+		if want != nil {
+			if !bytes.Equal(m.got, want) {
+				add("meta:anim-readback:"+names[k], fmt.Sprintf("%s blob of %d bytes (last value set) read back by animation.DecodeBytes as %d bytes", names[k], len(want), len(m.got)))
+			}
+			if (gerr != nil && len(want) > 0) || !bytes.Equal(chunk, want) {
+				add("meta:anim-readback:"+names[k], fmt.Sprintf("%s blob of %d bytes (last value set) read back by Demuxer.GetChunk as %d bytes (err=%v)", names[k], len(want), len(chunk), gerr))
+			}
+			if !m.flag {
+				add("meta:anim-flag-missing:"+names[k], "the muxer holds a blob but the file does not announce it")
+			}
+		} else {
+			if len(m.got) > 0 || gerr == nil {
+				add("meta:anim-phantom:"+names[k], fmt.Sprintf("last value set is nil (or never set) but the readers return a chunk (%d bytes, GetChunk err=%v)", len(m.got), gerr))
+			}
+			if m.flag {
+				add("meta:anim-flag-phantom:"+names[k], "last value set is nil (or never set) but the feature flag is set")
+			}
+		}
+	}
+	// (the frame count is not compared: the encoder merges a frame that repeats its predecessor)
+}
+
 func imageChunks(file []byte) (img, alph []byte) {
 	cs, _ := walkRIFF(file)
 	for _, c := range cs {
@@ -371,7 +568,7 @@ func imageChunks(file []byte) (img, alph []byte) {
 
 // suiteMeta: C15 — metadata is stored byte-exact and never affects the picture.
 func suiteMeta(rep *Report) error {
-	rep.Rule = "same image encoded without metadata and with every subset of {ICC,EXIF,XMP} over blob lengths {0,1,2..4,odd,even,chunk-like content, 64 KiB (thorough: 100 MB -1/+1)}: image (and ALPH) chunk bytes identical, decoded pixels identical, blobs read back byte-exact through the demuxer, VP8X flags announce exactly the non-empty blobs; animation encoder and muxer with metadata read back through animation.DecodeBytes / Demuxer.GetChunk; non-trivial = at least one non-empty blob"
+	rep.Rule = "same image encoded (full option grid: presets, lossy/lossless, Quality, Method, Exact - forced on for a third of the transparent pictures, whose alpha-0 pixels carry colour -, segments, partitions, passes, alpha settings, sharp YUV, target size/PSNR) without metadata and with every subset of {ICC,EXIF,XMP} over blob lengths {0,1,2..4,odd,even,chunk-like content, 64 KiB (thorough: 100 MB -1/+1)}: image (and ALPH) chunk bytes identical, decoded pixels identical, blobs read back byte-exact through the demuxer, VP8X flags announce exactly the non-empty blobs; animation encoder with 1..3 frames and a random sequence of SetICCProfile/SetEXIF/SetXMP calls (nil, empty and non-empty arguments, repeated, before/between/after the frames): per kind the LAST value set is read back byte-exact through animation.DecodeBytes and Demuxer.GetChunk with exact VP8X flags, whether Close() wrote an animation or a plain still; non-trivial = at least one non-empty blob"
 	n := 120
 	if rep.Tier == "thorough" {
 		n = 3000
@@ -381,13 +578,19 @@ func suiteMeta(rep *Report) error {
 		w, h := 1+r.Intn(40), 1+r.Intn(40)
 		cls, acls := r.Intn(NumImgClasses), r.Intn(NumAlphaClasses)
 		img := GenImage(r, w, h, cls, acls)
-		o := webp.DefaultOptions()
+		// the full option grid (incl. Exact, Quality > 75, presets, alpha settings): the metadata must not
+		// select a different encoding path for any of them
+		o := randEncoderOptions(r)
 		o.Lossless = r.Bool()
-		o.Method = r.Intn(5)
-		o.Quality = float32([]int{30, 75, 80}[r.Intn(3)])
+		if acls != AlphaNone && r.Chance(1, 3) {
+			// pixels that are fully transparent yet carry colour, with Exact on: the colour is part of
+			// the picture and the metadata-carrying path must keep it too
+			o.Exact = true
+		}
 		base, err := encodeBytes(img, o)
 		if err != nil {
-			return err
+			rep.Count("encode-error")
+			continue
 		}
 		baseImg, baseAlph := imageChunks(base)
 		basePix := ""
@@ -400,7 +603,8 @@ func suiteMeta(rep *Report) error {
 			if k == 3 && rep.Tier == "thorough" && i%200 == 0 {
 				o2.EXIF = bytes.Repeat([]byte{0xAB}, 65536+i%2)
 			}
-			desc := fmt.Sprintf("%s lossless=%v meta=%d/%d/%d", imgDesc(w, h, cls, acls), o.Lossless, len(o2.ICC), len(o2.EXIF), len(o2.XMP))
+			desc := fmt.Sprintf("%s lossless=%v q=%v m=%d exact=%v seg=%d part=%d pass=%d ts=%d psnr=%v ac=%d af=%d aq=%d syuv=%v pre=%d meta=%d/%d/%d", imgDesc(w, h, cls, acls), o.Lossless,
+				o.Quality, o.Method, o.Exact, o.Segments, o.Partitions, o.Pass, o.TargetSize, o.TargetPSNR, o.AlphaCompression, o.AlphaFiltering, o.AlphaQuality, o.UseSharpYUV, o.Preprocessing, len(o2.ICC), len(o2.EXIF), len(o2.XMP))
 			file, err := encodeBytes(img, &o2)
 			add := func(sig, detail string) {
 				rep.Add(Finding{Kind: "property", Property: "C15", Signature: sig, Detail: desc + ": " + detail,
@@ -447,47 +651,17 @@ func suiteMeta(rep *Report) error {
 			}
 			rep.Eval(len(o2.ICC)+len(o2.EXIF)+len(o2.XMP) > 0, append([]byte(desc), file...))
 		}
-		// animation encoder with metadata
-		if i%4 == 0 {
-			var buf bytes.Buffer
-			e := animation.NewEncoder(&buf, w, h, &animation.EncodeOptions{Lossless: true, Quality: 50})
-			icc, exif, xmp := randBlob(r), randBlob(r), randBlob(r)
-			if icc != nil {
-				e.SetICCProfile(icc)
-			}
-			if exif != nil {
-				e.SetEXIF(exif)
-			}
-			if xmp != nil {
-				e.SetXMP(xmp)
-			}
-			img2 := GenImage(r, w, h, cls, acls)
-			_ = e.AddFrame(img, 30*time.Millisecond)
-			_ = e.AddFrame(img2, 40*time.Millisecond)
-			if err := e.Close(); err == nil {
-				a, err := animation.DecodeBytes(buf.Bytes())
-				if err != nil {
-					rep.Add(Finding{Kind: "property", Property: "C15", Signature: "meta:anim-unreadable", Detail: err.Error(), Input: map[string]any{"op": "meta", "hex": short(hx(buf.Bytes()), 6000)}})
-				} else {
-					for _, m := range []struct {
-						name      string
-						give, got []byte
-					}{{"ICC", icc, a.ICC}, {"EXIF", exif, a.EXIF}, {"XMP", xmp, a.XMP}} {
-						if m.give != nil && !bytes.Equal(m.give, m.got) {
-							rep.Add(Finding{Kind: "property", Property: "C15", Signature: "meta:anim-readback:" + m.name,
-								Detail: fmt.Sprintf("animation %s blob of %d bytes read back as %d bytes", m.name, len(m.give), len(m.got)),
-								Input:  map[string]any{"op": "meta", "hex": short(hx(buf.Bytes()), 6000)}})
-						}
-						if m.give == nil && m.got != nil {
-							rep.Add(Finding{Kind: "property", Property: "C15", Signature: "meta:anim-phantom:" + m.name,
-								Detail: "no blob given but the animation reader returns one", Input: map[string]any{"op": "meta", "hex": short(hx(buf.Bytes()), 6000)}})
-						}
-					}
-					rep.Count("animation-with-metadata")
-				}
-			}
+		// animation encoder with metadata: 1..3 frames, the three setters driven as a random call
+		// sequence (nil / empty / non-empty arguments, repeated calls, before, between and after the
+		// frames). Oracle = what animation.go + mux.go implement: the muxer keeps the LAST value handed
+		// to each setter, nil included; a kind whose last value is non-nil is written (an empty blob as
+		// a zero-length chunk) and announced in the VP8X flags, a kind whose last value is nil (or that
+		// was never set) is absent; whatever container form Close() picks (one frame may become a plain
+		// still) must not lose a blob the muxer still holds.
+		if i%2 == 0 {
+			metaAnimCase(rep, r, i, img, w, h, cls, acls)
 		}
-		rep.Count(fmt.Sprintf("lossless=%v", o.Lossless))
+		rep.Count(fmt.Sprintf("lossless=%v,exact=%v,transparent=%v", o.Lossless, o.Exact, acls != AlphaNone))
 		if i < 2 {
 			rep.Sample(map[string]any{"image": imgDesc(w, h, cls, acls), "base_bytes": len(base)})
 		}
